@@ -198,3 +198,14 @@ Example C04_deadlines_purge_unconstrained :
   deadlines_okb 300 120 3660 = false /\ deadlines_okb default_probe default_offline default_purge = true.
 Proof. exact deadlines_purge_free. Qed.
 Print Assumptions C04_deadlines_purge_unconstrained.
+
+(* ---- time ----
+   The ageing rules are stated over the [now] of each step (C04_api_Parse / C04_api_DHCPv4Update: the stamp; C04_api_purge:
+   the cut-offs), for every value of it.  In the library the stamp is time.Now() read inside findOrCreateHostWithLock; the
+   tie is the real-time kind rt, justified by the monotonicity of every time comparison: *)
+Theorem C04_time_bracket : forall (dl last_lo last last_hi now_lo now now_hi : Z),
+  (last_lo <= last <= last_hi)%Z -> (now_lo <= now <= now_hi)%Z ->
+  (last_lo + dl <? now_hi)%Z = (last_hi + dl <? now_lo)%Z ->
+  (last + dl <? now)%Z = (last_hi + dl <? now_lo)%Z.
+Proof. exact time_bracket_proof. Qed.
+Print Assumptions C04_time_bracket.
